@@ -46,7 +46,9 @@ VARIABLES o, fs, result
 vars == <<o, fs, result>>
 SE == INSTANCE SequencesExt
 OptSeq == SE!SetToSeq(Opts)
-Init == /\ o \in {OptSeq[k] : k \in {j \in 1..Len(OptSeq) : j % NShards = Shard}}
+\* (the sequence is handed over as an ARGUMENT: TLC evaluates an argument once, a definition indexed inside a set constructor every time)
+ShardOf(seq) == {seq[k] : k \in {j \in 1..Len(seq) : j % NShards = Shard}}
+Init == /\ o \in ShardOf(OptSeq)
         /\ fs = (IF o.out_present THEN "old" ELSE "absent") /\ result = "pending"
 Run == /\ result = "pending"
        /\ result' = Outcome(o)
